@@ -1,6 +1,8 @@
 package gen
 
 import (
+	"bytes"
+	"io"
 	"net/http"
 	"sort"
 	"strings"
@@ -20,6 +22,61 @@ type HeaderKV struct {
 	// (two map keys differing only in letter case; the encoders must refuse or at least behave
 	// deterministically). Used by C18 only.
 	Force bool `json:"force,omitempty"`
+}
+
+// PlainReader hands out b through a reader that implements nothing but Read (like a file, pipe
+// or socket: no Len, ReadByte or WriteTo), at most chunk bytes per call; with eofWithData the
+// final bytes are returned together with io.EOF, which io.Reader allows.
+type PlainReader struct {
+	B           []byte
+	Chunk       int
+	EOFWithData bool
+}
+
+func (p *PlainReader) Read(dst []byte) (int, error) {
+	if len(p.B) == 0 {
+		return 0, io.EOF
+	}
+	n := len(dst)
+	if p.Chunk > 0 && n > p.Chunk {
+		n = p.Chunk
+	}
+	n = copy(dst[:n], p.B)
+	p.B = p.B[n:]
+	if p.EOFWithData && len(p.B) == 0 && n > 0 {
+		return n, io.EOF
+	}
+	return n, nil
+}
+
+// Source returns a bytes.Reader (mode 0) or a PlainReader (mode>0: chunk size = mode, odd modes
+// also return the last bytes together with io.EOF).
+func Source(b []byte, mode int) io.Reader {
+	if mode <= 0 {
+		return bytes.NewReader(b)
+	}
+	return &PlainReader{B: append([]byte{}, b...), Chunk: mode, EOFWithData: mode%2 == 1}
+}
+
+// SourceModeOf picks a reader mode as a pure function of the bytes (about 40% plain readers), for
+// checks whose Case types carry no explicit mode.
+func SourceModeOf(b []byte) int {
+	h := len(b)
+	for i, x := range b {
+		if i > 64 {
+			break
+		}
+		h = h*31 + int(x)
+	}
+	if h < 0 {
+		h = -h
+	}
+	return []int{0, 0, 0, 0, 0, 0, 1, 2, 7, 512, 4096, 4097}[h%12]
+}
+
+// DrawSourceMode draws a reader mode for Source.
+func DrawSourceMode(t *rapid.T, label string) int {
+	return rapid.SampledFrom([]int{0, 0, 0, 1, 2, 7, 512, 4096, 1 << 20, 1<<20 + 1}).Draw(t, label)
 }
 
 // BuildHeader inserts the fields with http.Header.Add (the repository's own calling
